@@ -19,11 +19,14 @@ RULE = ("scenarios: job document / project document writes (old document absent,
         "flushes of signac.buffered() blocks over 1-3 jobs (also forced flushes by a small capacity), buffered blocks that "
         "interleave document modifications with doc-filtered find_jobs / len / iteration / groupby('doc.x') on the same "
         "jobs, document writes through unpickled / copy.copy / copy.deepcopy Job and Project objects (document "
-        "accessed or not before cloning), whole assignments `project.doc = {...}` / `job.document = {...}` over non-empty "
+        "accessed or not before cloning), document writes through / after lifecycle methods of a Job object (Job.clear / Job.reset; "
+        "writes after a state point change - by attribute, update_statepoint, assignment, through a shallow copy -, after "
+        "remove() and init(force=True); document handle opened before the lifecycle call or not; object by id / iteration / "
+        "get_job / state point), whole assignments `project.doc = {...}` / `job.document = {...}` over non-empty "
         "documents judged as ONE replacement (all write episodes of the call together: content before or after the call, "
         "nothing in between), Job.sync / Project.sync (doc_sync ByKey / update) into existing jobs with and without a "
         "document (the `<doc>~` roll-back copy counts as a temp file), the document "
-        "write of the v1->v2 migration, Project.update_cache() on growing and shrinking workspaces (3..400 jobs; "
+        "write of the v1->v2 migration (also with a custom workspace directory and a v1 cache file that is MOVED to its v2 name), Project.update_cache() on growing and shrinking workspaces (3..400 jobs; "
         "gzip stream in several chunks), update_cache() with an injected OSError at every call of the stream "
         "(clean-up branch), and the raw JSON backend with write_concern False/True; each with JSON thread support "
         "forced ON, forced OFF and AS SHIPPED (the class flags a fresh `import signac` of the tree under test leaves).  Per write episode (open .. rename/close) one case: the interposer's mutation trace "
@@ -34,7 +37,7 @@ RULE = ("scenarios: job document / project document writes (old document absent,
         "entry of the descriptor); any entry on a document/cache/temp name outside the episodes, any entry the model "
         "translation does not consume, a failed replay self-check, a scenario without a write and a fault-case count "
         "different from the try body's length are emitted as mismatching cases; input_distribution['scenarios-"
-        "attempted'] counts scenarios (quick 174, thorough 279), every scenario yields >= 1 case or a harness error.  non-trivial: the old file "
+        "attempted'] counts scenarios (quick 213, thorough 336), every scenario yields >= 1 case or a harness error.  non-trivial: the old file "
         "exists or the write has >= 1 chunk of >= 2 bytes; distinct by (scenario, episode)")
 TRUSTED = [
     "os.replace is atomic w.r.t. concurrent open; a crash preserves the order of completed calls; an open file keeps its inode",
